@@ -49,6 +49,7 @@ fn write_node<O: BinaryOutput>(n: &NodeRef, ctx: &mut SerializationContext<O>) -
     Ok(())
 }
 
+#[derive(Clone)]
 pub struct Graph(pub NodeRef);
 
 impl BinarySerializer for Graph {
@@ -303,6 +304,65 @@ struct HolderEv {
     tail: u8,
 }
 
+/// three handles into one graph, the first field added by an evolution step but declared first: tokens and ids must
+/// follow the declaration order on both sides (first-encounter numbering across fields)
+#[derive(desert::BinaryCodec)]
+#[evolution(FieldAdded("ann", Graph(Rc::new(RefCell::new(Node { label: 0, edges: vec![] })))))]
+struct HolderOrd {
+    ann: Graph,
+    main: Graph,
+    tail: Graph,
+}
+
+fn graph_fields_in_order(c: &mut Collector) {
+    for (ia, im, it) in [(1usize, 0usize, 0usize), (0, 0, 1), (0, 1, 0), (1, 1, 0), (0, 0, 0)] {
+        c.eval();
+        let case = format!("three handles ann=n{} main=n{} tail=n{} (n0 -> n1 -> n0)", ia, im, it);
+        let nodes = build(&[vec![1], vec![0]]);
+        INDEX_OF.with(|m| *m.borrow_mut() = nodes.iter().enumerate().map(|(i, n)| (Rc::as_ptr(n), i)).collect());
+        let h = HolderOrd { ann: Graph(nodes[ia].clone()), main: Graph(nodes[im].clone()), tail: Graph(nodes[it].clone()) };
+        let enc = guarded(|| desert::serialize_to_byte_vec(&h));
+        match enc {
+            Out::Ok(b) => {
+                ARENA.with(|a| a.borrow_mut().clear());
+                match guarded(|| desert::deserialize::<HolderOrd>(&b)) {
+                    Out::Ok(d) => {
+                        let lab = |g: &Graph| g.0.borrow().label;
+                        let labels_ok = lab(&d.ann) == 10 + ia as u8 && lab(&d.main) == 10 + im as u8 && lab(&d.tail) == 10 + it as u8;
+                        let share = |x: &Graph, y: &Graph, same: bool| Rc::ptr_eq(&x.0, &y.0) == same;
+                        let sharing_ok = share(&d.ann, &d.main, ia == im) && share(&d.main, &d.tail, im == it) && share(&d.ann, &d.tail, ia == it);
+                        // the cycle is rebuilt: every node's successor's successor is the node itself
+                        let cyc = |g: &Graph| {
+                            let n = g.0.borrow();
+                            n.edges.len() == 1 && {
+                                let m = n.edges[0].borrow();
+                                m.edges.len() == 1 && Rc::ptr_eq(&m.edges[0], &g.0)
+                            }
+                        };
+                        if labels_ok && sharing_ok && cyc(&d.ann) && cyc(&d.main) && cyc(&d.tail) {
+                            c.stat("graph-fields-in-order-ok");
+                            c.nontrivial(&case);
+                        } else {
+                            c.fail("graph", "oracle", "graph|fields-order", case.clone(), format!("decoded labels {} {} {} (sharing ok: {}) from {}", lab(&d.ann), lab(&d.main), lab(&d.tail), sharing_ok, hex(&b)));
+                        }
+                        for g in [&d.ann, &d.main, &d.tail] {
+                            let succ: Vec<NodeRef> = g.0.borrow().edges.clone();
+                            for s2 in succ {
+                                s2.borrow_mut().edges.clear();
+                            }
+                            g.0.borrow_mut().edges.clear();
+                        }
+                    }
+                    other => c.fail("graph", "oracle", "graph|fields-order", case.clone(), format!("decoding {} gave {}", hex(&b), other.kind())),
+                }
+                ARENA.with(|a| a.borrow_mut().clear());
+            }
+            other => c.fail("graph", "oracle", "graph|fields-order", case.clone(), format!("encoder gave {}", other.kind())),
+        }
+        dismantle(&nodes);
+    }
+}
+
 fn zz_bytes(v: i32) -> Vec<u8> {
     let mut out: Vec<u8> = vec![];
     out.write_var_i32(v);
@@ -436,6 +496,7 @@ pub fn run(a: &Args) -> Collector {
         check_graph(&adj, &mut c, &mut q);
     }
     embedded_identities(&mut c);
+    graph_fields_in_order(&mut c);
     // graphs inside derived records (headerless and with evolution steps)
     {
         let mut r = Rng::new(a.seed ^ 0x77);
